@@ -14,6 +14,7 @@ def groups():
 
     def b(gid, props, harness, defines, what, unwind=10, **kw):
         kw.setdefault('timeout', 900)
+        kw.setdefault('weight', 2)      # the vacuity run of a group holds 1-2.5 GB
         G.append(Group(gid, props, 'B', S, harness, sources=SRC, defines=defines, unwind=unwind, malloc_fail=False,
                        what=what, scope=SCOPE, replay=True, **kw))
 
